@@ -271,7 +271,7 @@ class FullExecutor(Executor):
             k = coerce(args[0], t.k)
             present = z3.Select(s.dom(recv.z), k.z)
             val = V(t.v, z3.Select(s.val(recv.z), k.z))
-            if len(args) > 1:
+            if len(args) > 1 and not (isinstance(args[1], K) and args[1].v is None and not isinstance(t.v, TOpt)):
                 d = coerce(args[1], t.v)
                 return V(t.v, z3.If(present, val.z, d.z))
             ot = TOpt(t.v) if not isinstance(t.v, TOpt) else t.v
@@ -284,6 +284,8 @@ class FullExecutor(Executor):
 
     # ------------------------------------------------------------------ constructing objects
     def construct(self, st, cls, args, kwargs, node, stmt_level):
+        if cls is dict and len(args) == 1 and not kwargs and isinstance(args[0], V) and isinstance(args[0].ty, TDict):
+            return self.wrap(st, args[0], stmt_level)      # dict(d): a (shallow) copy -- containers are values here
         if cls in REC_TYPES:
             rt = REC_TYPES[cls]
             names = list(rt.fields)
@@ -767,6 +769,13 @@ class FullExecutor(Executor):
             val = oc.value
             for tg in s.targets:
                 self.bind_target(s2, tg, self.retarget(s2, tg, val))
+            if self.c.opts.get("track_aliases") and isinstance(s.value, ast.Name) and isinstance(val, V) \
+                    and isinstance(val.ty, (TList, TSet, TDict)):
+                # opt-in: `ys = xs` of a container value makes ys another name of the same object (see exec.alias_join)
+                from .exec import alias_join
+                for tg in s.targets:
+                    if isinstance(tg, ast.Name) and tg.id != s.value.id:
+                        alias_join(s2, tg.id, s.value.id)
             res.append((s2, NEXT))
         return res
 
@@ -810,6 +819,9 @@ class FullExecutor(Executor):
                             new = self.append_to(st, new, it)
                     else:
                         new = self.concat_lists(st, new, coerce(pv, cur.ty))
+            if isinstance(s.target, ast.Name) and (st.ghost.get("__alias__") or {}).get(s.target.id):
+                self.assign_lvalue(st, s.target, new)       # in-place: aliases of the list see it (opt-in aliasing)
+                return [(st, NEXT)]
             self.bind_target(st, s.target, new)
             return [(st, NEXT)]
         val = self.eval(st, s.value)
@@ -817,6 +829,11 @@ class FullExecutor(Executor):
             new = self.set_method(st, cur, "union", [val], None)
         else:
             new = self.binop(st, s.op, cur, val)
+        group = (st.ghost.get("__alias__") or {}).get(s.target.id) if isinstance(s.target, ast.Name) else None
+        if group and isinstance(cur, V) and isinstance(cur.ty, (TList, TSet, TDict)):
+            # `xs += ..` / `s |= ..` on a container is an in-place update: the aliases of the name see it (opt-in aliasing)
+            self.assign_lvalue(st, s.target, new)
+            return [(st, NEXT)]
         self.bind_target(st, s.target, new)
         return [(st, NEXT)]
 
@@ -1073,6 +1090,8 @@ class FullExecutor(Executor):
                 nv = fresh(st.env[n].ty, f"h_{n}")
                 wf_assumptions(nv, st)
                 st.env[n] = nv
+                for other in (st.ghost.get("__alias__") or {}).get(n, ()):
+                    st.env[other] = nv                      # a havocked container stays one object under all its names
             elif n in st.env and isinstance(st.env[n], SDict):
                 t = self.local_types.get(n)
                 if t is None:
